@@ -94,7 +94,8 @@ structure PStats where
 def paramStats (a : PAcc) (withInpaint : Bool) : PStats :=
   if a.n = 0 then ⟨none, none, a.min, a.max, none⟩ else
   let n : Rat := a.n
-  { mean := some (a.sum / n), var := some (a.sum2 / n - (a.sum * a.sum) / (n * n)), min := a.min, max := a.max
+  -- (the code clamps the one-pass variance at 0: in floating point a constant band can come out slightly negative)
+  { mean := some (a.sum / n), var := some (max (a.sum2 / n - (a.sum * a.sum) / (n * n)) 0), min := a.min, max := a.max
     inpaintP := if withInpaint then some (100 * (a.inpaint : Rat) / n) else none }
 
 /-- is band `b` (0-based) of a `count`-band parameter image an R² band (`band_i >= count * 2 / 3`)? -/
